@@ -26,6 +26,17 @@ Arguments rs_done {K KO}.
 Arguments rs_reg {K KO}.
 Arguments rs_ended {K KO}.
 
+(** nothing went wrong in a run: no poll bound hit, no fuel exhaustion, no panic, no stall *)
+Definition clean (l : list obs) : Prop :=
+  forall o, In o l -> o <> OBound /\ o <> OFuel /\ o <> OPanic /\ o <> OStall.
+Lemma clean_nil : clean [].
+Proof. intros o []. Qed.
+Lemma clean_cons o l : o <> OBound -> o <> OFuel -> o <> OPanic -> o <> OStall -> clean l ->
+  clean (o :: l).
+Proof. intros A B C D E x [Hx|Hx]; subst; auto. Qed.
+Lemma clean_app a b : clean a -> clean b -> clean (a ++ b).
+Proof. intros A B o Ho. apply in_app_iff in Ho. destruct Ho; auto. Qed.
+
 Section MachineProofs.
 Variables K KO : Type.
 Variable res : K -> (fid -> bool) -> list (chunk K KO).
@@ -633,11 +644,12 @@ Lemma drain_terminates fuel : forall n m s,
   good fuel m s -> all_done s -> phi (rs_sb s) < n ->
   let '(s', l) := drain K KO res reso fuel n s in
   rs_ended s' = true /\ good fuel m s' /\ length l <= phi (rs_sb s) + 1
-  /\ (forall o, In o l -> o = ONone \/ exists x, o = OSome x).
+  /\ (forall o, In o l -> o = ONone \/ exists x, o = OSome x)
+  /\ (rs_ended s = false -> In ONone l).
 Proof.
   induction n as [|n IH]; intros m s G A Hn; [lia|].
   cbn [drain]. destruct (rs_ended s) eqn:En.
-  - split; [auto|split; [auto|split; [simpl; lia|intros o []]]].
+  - split; [auto|split; [auto|split; [simpl; lia|split; [intros o []|discriminate]]]].
   - destruct (spoll fuel s) as [s1 r] eqn:Es.
     pose proof (good_poll fuel m s G) as G1. rewrite Es in G1. simpl in G1.
     pose proof (spoll_not_bad fuel m s G) as [NB1 NB2]. rewrite Es in NB1, NB2. simpl in *.
@@ -650,17 +662,19 @@ Proof.
       destruct (poll_some fuel (dn s) (rs_sb s) x E2) as [_ [_ Hphi]].
       assert (phi (rs_sb s1) < n) as Hn1.
       { rewrite <- E1. simpl. lia. }
+      assert (rs_ended s1 = false) as En1 by (rewrite <- E1; simpl; rewrite E2; auto).
       specialize (IH m s1 G1 A1 Hn1).
       destruct (drain K KO res reso fuel n s1) as [s2 l2].
-      destruct IH as [I1 [I2 [I3 I4]]].
-      split; [auto|split; [auto|split]].
+      destruct IH as [I1 [I2 [I3 [I4 I5]]]].
+      split; [auto|split; [auto|split; [|split]]].
       * simpl. rewrite <- E1 in I3. simpl in I3. lia.
       * intros o [Ho|Ho]; [right; eexists; eauto|auto].
+      * intros _. right. auto.
     + (* None *)
       assert (rs_ended s1 = true) as En1 by (rewrite <- E1; simpl; rewrite E2; reflexivity).
       destruct n as [|n']; cbn [drain]; rewrite En1.
-      * split; [auto|split; [auto|split; [simpl; lia|intros o [Ho|[]]; auto]]].
-      * split; [auto|split; [auto|split; [simpl; lia|intros o [Ho|[]]; auto]]].
+      * split; [auto|split; [auto|split; [simpl; lia|split; [intros o [Ho|[]]; auto|left; auto]]]].
+      * split; [auto|split; [auto|split; [simpl; lia|split; [intros o [Ho|[]]; auto|left; auto]]]].
 Qed.
 
 (* ---- the executor drive ---- *)
@@ -672,7 +686,8 @@ Lemma run_task_parked fuel m : forall n s,
   good fuel m s -> phi (rs_sb s) < n ->
   let '(s', l) := run_task K KO res reso fuel n s in
   parked s' /\ good fuel m s' /\ rs_done s' = rs_done s
-  /\ (forall o, In o l -> o = ONone \/ o = OPending \/ exists x, o = OSome x).
+  /\ (forall o, In o l -> o = ONone \/ o = OPending \/ exists x, o = OSome x)
+  /\ (rs_ended s' = true -> rs_ended s = true \/ In ONone l).
 Proof.
   induction n as [|n IH]; intros s G Hn; [lia|].
   cbn [run_task]. destruct (spoll fuel s) as [s1 r] eqn:Es.
@@ -683,19 +698,23 @@ Proof.
   destruct r as [|x| | |]; try congruence.
   - (* Pending *)
     destruct (pending_is_parked fuel s s1 Es) as [f [Hr [Hd [Hi _]]]].
-    split; [|split; [exact G1|split; [exact Ed|]]].
+    split; [|split; [exact G1|split; [exact Ed|split]]].
     + right. exists f. split; [auto|split; [auto|]]. apply (g_f _ _ _ G); auto.
     + intros o [Ho|[]]; subst; auto.
+    + intros E. left. rewrite <- E1 in E. cbn [rs_ended] in E. rewrite E2 in E. exact E.
   - destruct (poll_some fuel (dn s) (rs_sb s) x E2) as [_ [_ Hphi]].
     assert (phi (rs_sb s1) < n) as Hn1 by (rewrite <- E1; simpl; lia).
+    assert (rs_ended s1 = rs_ended s) as En1 by (rewrite <- E1; cbn [rs_ended]; rewrite E2; auto).
     specialize (IH s1 G1 Hn1).
     destruct (run_task K KO res reso fuel n s1) as [s2 l2].
-    destruct IH as [I1 [I2 [I3 I4]]].
-    split; [exact I1|split; [exact I2|split; [congruence|]]].
-    intros o [Ho|Ho]; [right; right; eexists; eauto|auto].
-  - split; [|split; [exact G1|split; [exact Ed|]]].
+    destruct IH as [I1 [I2 [I3 [I4 I5]]]].
+    split; [exact I1|split; [exact I2|split; [congruence|split]]].
+    + intros o [Ho|Ho]; [right; right; eexists; eauto|auto].
+    + intros E. destruct (I5 E) as [X|X]; [left; congruence|right; right; auto].
+  - split; [|split; [exact G1|split; [exact Ed|split]]].
     + left. rewrite <- E1. simpl. rewrite E2. reflexivity.
     + intros o [Ho|[]]; subst; auto.
+    + intros _. right. left. reflexivity.
 Qed.
 
 Lemma complete_parked f s :
@@ -731,17 +750,20 @@ Lemma run_exec_ends fuel n : forall order s,
   (forall f, In f F -> In f order \/ memf f (rs_done s) = true) ->
   let '(s', l) := run_exec K KO res reso fuel n order s in
   rs_ended s' = true /\
-  (forall o, In o l -> o = ONone \/ o = OPending \/ (exists x, o = OSome x) \/ exists w, o = OWake w).
+  (forall o, In o l -> o = ONone \/ o = OPending \/ (exists x, o = OSome x) \/ exists w, o = OWake w)
+  /\ (rs_ended s = true \/ In ONone l).
 Proof.
   induction order as [|f order IH]; intros s G P Hall.
   - cbn [run_exec]. destruct (rs_ended s) eqn:En.
-    + split; auto. intros o [].
+    + split; [auto|split; [intros o []|auto]].
     + exfalso. destruct P as [E|[f [Hr [Hd Hf]]]]; [congruence|].
       destruct (Hall f Hf) as [[]|E]. congruence.
   - cbn [run_exec]. destruct (memf f (rs_done s)) eqn:Md.
     + apply IH; auto. intros g Hg. destruct (Hall g Hg) as [[E|I]|E]; subst; auto.
     + destruct (step_complete K KO f s) as [s1 w] eqn:Ec.
       pose proof (complete_good fuel n f s G) as G1. rewrite Ec in G1. simpl in G1.
+      assert (rs_ended s1 = rs_ended s) as Een.
+      { unfold step_complete in Ec. rewrite Md in Ec. inversion Ec; auto. }
       assert (forall g, In g F -> In g order \/ memf g (rs_done s1) = true) as Hall1.
       { intros g Hg. pose proof (complete_done f s g) as CD. rewrite Ec in CD. simpl in CD.
         destruct (Hall g Hg) as [[E|I]|E]; subst; auto; right; apply CD; auto. }
@@ -750,15 +772,19 @@ Proof.
           by (pose proof (phi_le (rs_sb s1)); pose proof (g_n _ _ _ G1); lia).
         pose proof (run_task_parked fuel n n s1 G1 Hp) as RT.
         destruct (run_task K KO res reso fuel n s1) as [s2 l1].
-        destruct RT as [P2 [G2 [D2 L1]]].
+        destruct RT as [P2 [G2 [D2 [L1 N1]]]].
         assert (forall g, In g F -> In g order \/ memf g (rs_done s2) = true) as Hall2
           by (rewrite D2; auto).
         specialize (IH s2 G2 P2 Hall2).
         destruct (run_exec K KO res reso fuel n order s2) as [s3 l2].
-        destruct IH as [I1 I2]. split; auto.
-        intros o [Ho|Ho]; [right; right; right; eexists; eauto|].
-        apply in_app_iff in Ho. destruct Ho as [Ho|Ho]; auto.
-        destruct (L1 o Ho) as [A|[A|A]]; auto.
+        destruct IH as [I1 [I2 I3]]. split; [auto|split].
+        -- intros o [Ho|Ho]; [right; right; right; eexists; eauto|].
+           apply in_app_iff in Ho. destruct Ho as [Ho|Ho]; auto.
+           destruct (L1 o Ho) as [A|[A|A]]; auto.
+        -- destruct I3 as [I3|I3].
+           ++ destruct (N1 I3) as [X|X]; [left; congruence|].
+              right. right. apply in_app_iff. auto.
+           ++ right. right. apply in_app_iff. auto.
       * assert (parked s1) as P1.
         { apply andb_false_iff in Ew. destruct Ew as [Ew|Ew].
           - pose proof (complete_parked f s P) as CP. rewrite Ec in CP. simpl in CP.
@@ -766,39 +792,50 @@ Proof.
           - left. destruct (rs_ended s1); auto. }
         specialize (IH s1 G1 P1 Hall1).
         destruct (run_exec K KO res reso fuel n order s1) as [s3 l2].
-        destruct IH as [I1 I2]. split; auto.
-        intros o [Ho|Ho]; [right; right; right; eexists; eauto|auto].
+        destruct IH as [I1 [I2 I3]]. split; [auto|split].
+        -- intros o [Ho|Ho]; [right; right; right; eexists; eauto|auto].
+        -- destruct I3 as [I3|I3]; [left; congruence|right; right; auto].
 Qed.
+
+Lemma obs_of_clean r : r <> PFuel -> r <> PPanic ->
+  obs_of r <> OBound /\ obs_of r <> OFuel /\ obs_of r <> OPanic /\ obs_of r <> OStall.
+Proof. destruct r; simpl; intros A B; repeat split; congruence. Qed.
 
 Lemma run_events_good fuel n : forall ev s,
   good fuel n s ->
   good fuel n (fst (run_events K KO res reso fuel ev s))
   /\ (forall f, memf f (rs_done s) = true ->
         memf f (rs_done (fst (run_events K KO res reso fuel ev s))) = true)
-  /\ ~ In OFuel (snd (run_events K KO res reso fuel ev s))
-  /\ ~ In OPanic (snd (run_events K KO res reso fuel ev s)).
+  /\ clean (snd (run_events K KO res reso fuel ev s))
+  /\ (rs_ended (fst (run_events K KO res reso fuel ev s)) = true ->
+      rs_ended s = true \/ In ONone (snd (run_events K KO res reso fuel ev s))).
 Proof.
   induction ev as [|[f|] ev IH]; intros s G; cbn [run_events].
-  - simpl. auto.
+  - simpl. split; [auto|split; [auto|split; [apply clean_nil|auto]]].
   - destruct (step_complete K KO f s) as [s1 w] eqn:Ec.
     pose proof (complete_good fuel n f s G) as G1. rewrite Ec in G1. simpl in G1.
+    assert (rs_ended s1 = rs_ended s) as Een.
+    { unfold step_complete in Ec. destruct (memf f (rs_done s)); inversion Ec; auto. }
     destruct (IH s1 G1) as [A [B [C D]]].
-    destruct (run_events K KO res reso fuel ev s1) as [s2 l]. simpl in *.
+    destruct (run_events K KO res reso fuel ev s1) as [s2 l]. cbn [fst snd] in *.
     split; [auto|split; [|split]].
     + intros g Hg. apply B. pose proof (complete_done f s g) as CD. rewrite Ec in CD.
       apply CD. auto.
-    + intros [E|E]; [discriminate|auto].
-    + intros [E|E]; [discriminate|auto].
+    + apply clean_cons; auto; discriminate.
+    + intros E. destruct (D E) as [D1|D1]; [left; congruence|right; right; auto].
   - destruct (spoll fuel s) as [s1 r] eqn:Es.
     pose proof (good_poll fuel n s G) as G1. rewrite Es in G1. simpl in G1.
     pose proof (spoll_not_bad fuel n s G) as [NB1 NB2]. rewrite Es in NB1, NB2. simpl in *.
     pose proof (spoll_done fuel s) as Ed. rewrite Es in Ed. simpl in Ed.
+    assert (Es' := Es). rewrite spoll_eq in Es'. cbv zeta in Es'. injection Es' as E1 E2.
     destruct (IH s1 G1) as [A [B [C D]]].
-    destruct (run_events K KO res reso fuel ev s1) as [s2 l]. simpl in *.
+    destruct (run_events K KO res reso fuel ev s1) as [s2 l]. cbn [fst snd] in *.
     split; [auto|split; [|split]].
     + intros g Hg. apply B. rewrite Ed. auto.
-    + intros [E|E]; [destruct r; simpl in E; congruence|auto].
-    + intros [E|E]; [destruct r; simpl in E; congruence|auto].
+    + destruct (obs_of_clean r NB1 NB2) as [X1 [X2 [X3 X4]]]. apply clean_cons; auto.
+    + intros E. destruct (D E) as [D1|D1]; [|right; right; auto].
+      rewrite <- E1 in D1. cbn [rs_ended] in D1. rewrite E2 in D1.
+      destruct r; auto; right; left; reflexivity.
 Qed.
 
 Lemma complete_all_good fuel n : forall fs s,
@@ -808,23 +845,26 @@ Lemma complete_all_good fuel n : forall fs s,
         memf f (rs_done (fst (complete_all K KO fs s))) = true)
   /\ rs_sb (fst (complete_all K KO fs s)) = rs_sb s
   /\ rs_ended (fst (complete_all K KO fs s)) = rs_ended s
-  /\ somes (snd (complete_all K KO fs s)) = [].
+  /\ somes (snd (complete_all K KO fs s)) = []
+  /\ clean (snd (complete_all K KO fs s)).
 Proof.
   induction fs as [|f fs IH]; intros s G; cbn [complete_all].
-  - simpl. split; [exact G|split; [|auto]]. intros f [[]|H]; auto.
+  - simpl. split; [exact G|split; [|auto using clean_nil]]. intros f [[]|H]; auto.
   - destruct (memf f (rs_done s)) eqn:Md.
-    + destruct (IH s G) as [A [B [C [D E]]]].
+    + destruct (IH s G) as [A [B [C [D [E E']]]]].
       split; [exact A|split; [|auto]].
       intros g [[Hg|Hg]|Hg]; subst; auto.
     + destruct (step_complete K KO f s) as [s1 w] eqn:Ec.
       pose proof (complete_good fuel n f s G) as G1. rewrite Ec in G1. simpl in G1.
       assert (rs_sb s1 = rs_sb s /\ rs_ended s1 = rs_ended s) as [Esb Een].
       { unfold step_complete in Ec. rewrite Md in Ec. inversion Ec. auto. }
-      destruct (IH s1 G1) as [A [B [C [D E]]]].
-      destruct (complete_all K KO fs s1) as [s2 l]. simpl in *.
-      split; [exact A|split; [|split; [congruence|split; [congruence|auto]]]].
-      intros g Hg. apply B. pose proof (complete_done f s g) as CD. rewrite Ec in CD. simpl in CD.
-      destruct Hg as [[Hg|Hg]|Hg]; subst; auto; right; apply CD; auto.
+      destruct (IH s1 G1) as [A [B [C [D [E E']]]]].
+      destruct (complete_all K KO fs s1) as [s2 l]. cbn [fst snd] in *.
+      split; [exact A|split; [|split; [congruence|split; [congruence|split; [exact E|]]]]].
+      * intros g Hg. apply B. pose proof (complete_done f s g) as CD. rewrite Ec in CD.
+        cbn [fst] in CD.
+        destruct Hg as [[Hg|Hg]|Hg]; subst; auto; right; apply CD; auto.
+      * apply clean_cons; auto; discriminate.
 Qed.
 
 End WithInvariant.
@@ -888,7 +928,111 @@ Proof.
   rewrite C1, C. destruct r; simpl; rewrite ?app_assoc; reflexivity.
 Qed.
 
+Lemma run_task_io fuel : forall n s, io_ok (rs_sb s) -> ended_ok s ->
+  let x := run_task K KO res reso fuel n s in
+  io_ok (rs_sb (fst x)) /\ ended_ok (fst x)
+  /\ content (rs_sb s) = somes (snd x) ++ content (rs_sb (fst x)).
+Proof.
+  induction n as [|n IH]; intros s I E; cbn [run_task].
+  - simpl. auto.
+  - pose proof (spoll_io fuel s I E) as SP. destruct (spoll fuel s) as [s1 r]. cbn [fst snd] in SP.
+    destruct SP as [I1 [E1 [C1 _]]].
+    destruct r as [|x| | |]; cbn [fst snd obs_of somes flat_map app out] in *;
+      try (split; [exact I1|split; [exact E1|rewrite C1; reflexivity]]).
+    specialize (IH s1 I1 E1). destruct (run_task K KO res reso fuel n s1) as [s2 l].
+    cbn [fst snd] in *. destruct IH as [A [B C]]. split; [exact A|split; [exact B|]].
+    rewrite C1, C. cbn [somes flat_map]. rewrite app_assoc. reflexivity.
+Qed.
+
+Lemma run_exec_io fuel n : forall order s, io_ok (rs_sb s) -> ended_ok s ->
+  let x := run_exec K KO res reso fuel n order s in
+  io_ok (rs_sb (fst x)) /\ ended_ok (fst x)
+  /\ content (rs_sb s) = somes (snd x) ++ content (rs_sb (fst x)).
+Proof.
+  induction order as [|f order IH]; intros s I E; cbn [run_exec].
+  - destruct (rs_ended s); simpl; auto.
+  - destruct (memf f (rs_done s)) eqn:Md; [apply IH; auto|].
+    destruct (step_complete K KO f s) as [s1 w] eqn:Ec.
+    assert (rs_sb s1 = rs_sb s /\ rs_ended s1 = rs_ended s) as [Esb Een].
+    { unfold step_complete in Ec. rewrite Md in Ec. inversion Ec; auto. }
+    assert (io_ok (rs_sb s1)) as I1 by (rewrite Esb; auto).
+    assert (ended_ok s1) as E1 by (unfold ended_ok; rewrite Esb, Een; auto).
+    destruct ((0 <? w)%N && negb (rs_ended s1)).
+    + pose proof (run_task_io fuel n s1 I1 E1) as RT.
+      destruct (run_task K KO res reso fuel n s1) as [s2 l1]. cbn [fst snd] in RT.
+      destruct RT as [I2 [E2 C2]].
+      specialize (IH s2 I2 E2). destruct (run_exec K KO res reso fuel n order s2) as [s3 l2].
+      cbn [fst snd] in *. destruct IH as [A [B C]]. split; [exact A|split; [exact B|]].
+      rewrite <- Esb, C2, C. cbn [somes flat_map app].
+      fold (somes (l1 ++ l2)). unfold somes. rewrite flat_map_app, app_assoc. reflexivity.
+    + specialize (IH s1 I1 E1). destruct (run_exec K KO res reso fuel n order s1) as [s3 l2].
+      cbn [fst snd] in *. destruct IH as [A [B C]]. split; [exact A|split; [exact B|]].
+      rewrite <- Esb, C. reflexivity.
+Qed.
+
 End MachineProofs.
+
+(* ------------------------------------------------------------------ in-order shape (no content) *)
+Section Shape.
+Variables K KO : Type.
+Variable res : K -> (fid -> bool) -> list (chunk K KO).
+Variable reso : KO -> (fid -> bool) -> ooo_chunk K KO.
+Variable okS : K -> Prop.
+Hypothesis res_shape : forall k d, okS k -> Forall (okc K KO okS) (res k d).
+
+(** an in-order stream: no out-of-order chunk anywhere, now or later *)
+Definition shape (b : sb K KO) : Prop :=
+  Forall (okc K KO okS) (chunks b)
+  /\ match pending b with Some (_, k) => okS k | None => True end
+  /\ pending_ooo b = [].
+
+Lemma coalesce_shape : forall c buf po buf' c' po',
+  Forall (okc K KO okS) c -> coalesce buf c po = (buf', c', po') ->
+  po' = po /\ Forall (okc K KO okS) c'.
+Proof.
+  induction c as [|[s|f k|f k] c IH]; intros buf po buf' c' po' F H; simpl in H.
+  - inversion H; subst. auto.
+  - inversion F; subst. eapply IH; eauto.
+  - inversion H; subst. auto.
+  - inversion F; subst. simpl in H2. contradiction.
+Qed.
+
+Lemma step1_shape d b b' : step1 K KO res reso d b b' -> shape b -> shape b'.
+Proof.
+  intros S [Fc [Fp Fo]]; destruct S; unfold shape; simpl.
+  - rewrite Hp in *. split; [apply Forall_app; split; auto|auto].
+  - rewrite Hc in *. inversion Fc; subst.
+    destruct (coalesce_shape _ _ _ _ _ _ H2 Hco) as [A B]. subst po. rewrite Hp. auto.
+  - rewrite Hc in *. inversion Fc; subst. simpl in *. auto.
+  - rewrite Hc in Fc. inversion Fc; subst. simpl in *. contradiction.
+  - rewrite Fo in Ho. discriminate.
+  - rewrite Fo in Ho. discriminate.
+Qed.
+
+Lemma ret1_shape d b x : ret1 K KO reso d b x -> shape b ->
+  shape (snd (fst x)) /\ fst (fst x) <> PPanic.
+Proof.
+  intros R [Fc [Fp Fo]]; destruct R; unfold shape; simpl;
+    try (rewrite Fo in Ho; discriminate).
+  - split; [auto|discriminate].
+  - rewrite Hc in *. inversion Fc; subst. simpl in *. split; [auto|discriminate].
+  - rewrite Hc in Fc. inversion Fc; subst. simpl in *. contradiction.
+  - rewrite Hp. split; [auto|discriminate].
+  - rewrite Hp. split; [auto|discriminate].
+Qed.
+
+Lemma poll_shape : forall fuel d b, shape b ->
+  shape (snd (fst (poll_next K KO res reso fuel d b)))
+  /\ fst (fst (poll_next K KO res reso fuel d b)) <> PPanic.
+Proof.
+  intros fuel d b.
+  apply (poll_ind_gen K KO res reso d (fun b x => shape b ->
+    shape (snd (fst x)) /\ fst (fst x) <> PPanic)).
+  - intros b0 x R I. apply (ret1_shape d b0 x R I).
+  - intros b0 b1 x S1 IH I. apply IH. eapply step1_shape; eauto.
+  - intros b0 I. simpl. split; [exact I|discriminate].
+Qed.
+End Shape.
 
 (* ================================================================== part 2: views *)
 Arguments push_sync {K KO}.
@@ -962,15 +1106,15 @@ Lemma resolved_tuple v vs pos :
   resolved (VTuple (v :: vs)) pos = resolved_list (v :: vs) pos.
 Proof.
   cbn [resolved resolved_list]. destruct (resolved v pos) as [h1 p1].
-  revert p1. induction vs as [|w vs IH]; intros p1; cbn [resolved_list]; auto;
-    try (destruct (resolved w p1) as [h2 p2]; rewrite IH; reflexivity).
+  revert h1 p1. induction vs as [|w vs IH]; intros h1 p1; cbn [resolved_list]; auto;
+    try (destruct (resolved w p1) as [h2 p2]; rewrite (IH h2 p2); reflexivity).
 Qed.
 Lemma to_html_tuple d v vs pos :
   to_html d (VTuple (v :: vs)) pos = to_html_list d (v :: vs) pos.
 Proof.
   cbn [to_html to_html_list]. destruct (to_html d v pos) as [h1 p1].
-  revert p1. induction vs as [|w vs IH]; intros p1; cbn [to_html_list]; auto;
-    try (destruct (to_html d w p1) as [h2 p2]; rewrite IH; reflexivity).
+  revert h1 p1. induction vs as [|w vs IH]; intros h1 p1; cbn [to_html_list]; auto;
+    try (destruct (to_html d w p1) as [h2 p2]; rewrite (IH h2 p2); reflexivity).
 Qed.
 
 Notation vchunkT := (chunk clo oclo).
@@ -1002,3 +1146,881 @@ Proof.
   - cbn [render]. unfold push_async, flush. simpl.
     repeat (match goal with |- context [if ?x then _ else _] => destruct x end; simpl); auto.
 Qed.
+
+(* ------------------------------------------------------------------ weights of the chunks a view produces *)
+Definition wclo (k : clo) : nat := 4 * vsize (c_view k) + 1.
+Definition woclo (k : oclo) : nat :=
+  match o_view k with Some v => 4 * vsize v + 1 | None => 1 end.
+Notation vcws := (cws clo oclo wclo woclo).
+Notation vmu := (mu clo oclo wclo woclo).
+
+Lemma vcws_app l m : vcws (l ++ m) = vcws l + vcws m.
+Proof. apply cws_app. Qed.
+
+Lemma vcws_cons x l : vcws (x :: l) = cw clo oclo wclo woclo x + vcws l.
+Proof. reflexivity. Qed.
+
+Lemma flush_w (b : vsb) : vcws (chunks (flush b)) <= vcws (chunks b) + 1.
+Proof.
+  unfold flush. destruct (is_nil (sync_buf b)); simpl; [lia|]. rewrite vcws_app. simpl. lia.
+Qed.
+Lemma push_last_w (c : list vchunkT) s : vcws (push_to_last_sync c s) <= vcws c + 1.
+Proof.
+  induction c as [|x c IH]; simpl; [lia|].
+  destruct c as [|y c'].
+  - destruct x; simpl; lia.
+  - destruct x; rewrite !vcws_cons in *; lia.
+Qed.
+Lemma finish_w (b : vsb) : vcws (chunks (finish b)) <= vcws (chunks b) + 1.
+Proof.
+  unfold finish. destruct (is_nil (sync_buf b)); simpl; [lia|apply push_last_w].
+Qed.
+Lemma finish_sync (b : vsb) : sync_buf (finish b) = [].
+Proof.
+  unfold finish. destruct (is_nil (sync_buf b)) eqn:E; simpl; auto.
+  destruct (sync_buf b); simpl in *; congruence.
+Qed.
+Lemma take_finish (b : vsb) : fst (take_chunks (finish b)) = chunks (finish b).
+Proof.
+  unfold take_chunks, flush. rewrite finish_sync. reflexivity.
+Qed.
+
+Lemma vsize_tuple v vs : vsize (VTuple (v :: vs)) = vsize v + vsize (VTuple vs).
+Proof. simpl. lia. Qed.
+
+Lemma cw_async f k : cw clo oclo wclo woclo (CAsync f k) = 4 * vsize (c_view k) + 3.
+Proof. unfold cw, wclo. lia. Qed.
+Lemma cw_ooo_le f k v : (o_view k = Some v \/ o_view k = None) ->
+  cw clo oclo wclo woclo (COoo f k) <= 4 * vsize v + 3.
+Proof. unfold cw, woclo. intros [E|E]; rewrite E; lia. Qed.
+Lemma vcws_nil : vcws [] = 0.
+Proof. reflexivity. Qed.
+
+Ltac sb_simpl :=
+  cbn [fst snd chunks sync_buf pending pending_ooo bid set_sync set_chunks set_pending set_pooo
+       set_bid push_sync next_id clone_id push_ooo sb_new c_view c_ooo c_id c_pos o_view o_id o_pos]
+    in *.
+
+Lemma wcm_chunks {K KO} o (b : sb K KO) : chunks (write_chunk_marker o b) = chunks b.
+Proof. unfold write_chunk_marker. destruct (bid b); reflexivity. Qed.
+Lemma wcm_pending {K KO} o (b : sb K KO) : pending (write_chunk_marker o b) = pending b.
+Proof. unfold write_chunk_marker. destruct (bid b); reflexivity. Qed.
+Lemma wcm_pooo {K KO} o (b : sb K KO) : pending_ooo (write_chunk_marker o b) = pending_ooo b.
+Proof. unfold write_chunk_marker. destruct (bid b); reflexivity. Qed.
+Lemma wcm_bid {K KO} o (b : sb K KO) : bid (write_chunk_marker o b) = bid b.
+Proof. unfold write_chunk_marker. destruct (bid b) eqn:E; simpl; auto. Qed.
+
+Lemma render_w ooo d v : forall b pos,
+  vcws (chunks (fst (render ooo d v b pos))) <= vcws (chunks b) + 4 * vsize v.
+Proof.
+  induction v using view_ind'; intros b pos.
+  - cbn [render]. sb_simpl. lia.
+  - cbn [render vsize]. destruct (render ooo d v _ FirstChild) as [b1 p1] eqn:E.
+    specialize (IHv (push_sync (open_tag t) b) FirstChild). rewrite E in IHv. sb_simpl. lia.
+  - destruct vs as [|v vs]; [cbn [render]; sb_simpl; lia|]. rewrite render_tuple.
+    revert b pos. induction H as [|w ws Hw Hws IH]; intros b pos.
+    + cbn [render_list]. sb_simpl. lia.
+    + cbn [render_list]. destruct (render ooo d w b pos) as [b1 p1] eqn:E.
+      specialize (Hw b pos). rewrite E in Hw. sb_simpl.
+      specialize (IH b1 p1). rewrite vsize_tuple.
+      assert (vsize (VTuple ws) >= 1) by (cbn [vsize]; lia).
+      destruct ws as [|w' ws'].
+      * cbn [render_list] in *. sb_simpl. lia.
+      * lia.
+  - cbn [render vsize]. destruct (d f); [specialize (IHv b pos); lia|].
+    destruct ooo.
+    + sb_simpl. rewrite vcws_app, vcws_cons, vcws_nil, !wcm_chunks. sb_simpl.
+      rewrite wcm_chunks. sb_simpl.
+      match goal with |- context [COoo f ?k] =>
+        pose proof (cw_ooo_le f k v (or_introl eq_refl)) end. lia.
+    + unfold push_async. sb_simpl. rewrite vcws_app, vcws_cons, vcws_nil, cw_async. sb_simpl.
+      pose proof (flush_w (next_id b)). sb_simpl. lia.
+  - cbn [render vsize]. destruct (d f).
+    + destruct sm; [specialize (IHv2 (next_id b) pos)|specialize (IHv1 (next_id b) pos)];
+        sb_simpl; lia.
+    + destruct ooo.
+      * sb_simpl. rewrite vcws_app, vcws_cons, vcws_nil, !wcm_chunks. sb_simpl.
+        rewrite wcm_chunks. sb_simpl.
+        match goal with |- context [COoo f ?k] =>
+          pose proof (cw_ooo_le f k v2 ltac:(destruct sm; [left|right]; reflexivity)) end.
+        lia.
+      * unfold push_async. sb_simpl. rewrite vcws_app, vcws_cons, vcws_nil, cw_async. sb_simpl.
+        pose proof (flush_w (next_id b)). sb_simpl. destruct sm; lia.
+  - cbn [render vsize]. destruct (render ooo d v _ pos) as [nb p1] eqn:E.
+    specialize (IHv (sb_new (clone_id b)) pos). rewrite E in IHv. sb_simpl.
+    unfold append. sb_simpl. rewrite vcws_nil in IHv.
+    destruct (existsb _ (chunks nb)); sb_simpl; rewrite vcws_app.
+    + pose proof (flush_w b). lia.
+    + lia.
+  - cbn [render]. sb_simpl. lia.
+  - cbn [render vsize]. unfold push_async. sb_simpl.
+    rewrite vcws_app, vcws_cons, vcws_nil, cw_async. sb_simpl.
+    pose proof (flush_w b). lia.
+Qed.
+
+Lemma res_clo_w k d : vcws (res_clo k d) <= wclo k.
+Proof.
+  unfold res_clo. destruct (render (c_ooo k) d (c_view k) (sb_new (c_id k)) (c_pos k)) as [b p] eqn:E.
+  rewrite take_finish. pose proof (finish_w b).
+  pose proof (render_w (c_ooo k) d (c_view k) (sb_new (c_id k)) (c_pos k)) as R.
+  rewrite E in R. sb_simpl. rewrite vcws_nil in R.
+  change (wclo k) with (4 * vsize (c_view k) + 1). lia.
+Qed.
+
+Lemma res_oclo_w k d : vcws (ochunks (res_oclo k d)) <= woclo k.
+Proof.
+  unfold res_oclo. cbn [ochunks]. rewrite take_finish.
+  destruct k as [i p [v|]]; sb_simpl.
+  - change (woclo {| o_id := i; o_pos := p; o_view := Some v |}) with (4 * vsize v + 1).
+    pose proof (finish_w (fst (render true d v (sb_new (option_map (fun i => i ++ [0%N]) i)) p))).
+    pose proof (render_w true d v (sb_new (option_map (fun i => i ++ [0%N]) i)) p) as R.
+    sb_simpl. rewrite vcws_nil in R. lia.
+  - change (woclo {| o_id := i; o_pos := p; o_view := None |}) with 1.
+    pose proof (finish_w (sb_new (option_map (fun i => i ++ [0%N]) i)) : _ <= _) as Fw.
+    sb_simpl. rewrite vcws_nil in Fw. lia.
+Qed.
+
+Lemma stream_of_mu ooo d v : vmu (stream_of ooo d v) + 2 < poll_fuel v.
+Proof.
+  unfold stream_of, poll_fuel, mu.
+  set (b0 := sb_new (if ooo then Some [0%N] else None)).
+  pose proof (render_keeps ooo d v b0 FirstChild) as [Kp Ko].
+  pose proof (render_w ooo d v b0 FirstChild) as W.
+  pose proof (finish_w (fst (render ooo d v b0 FirstChild))) as Fw.
+  assert (pending (finish (fst (render ooo d v b0 FirstChild))) = None) as Ep.
+  { unfold finish. destruct (is_nil _); cbn [pending set_sync set_chunks]; rewrite Kp; reflexivity. }
+  assert (pending_ooo (finish (fst (render ooo d v b0 FirstChild))) = []) as Eo.
+  { unfold finish. destruct (is_nil _); cbn [pending_ooo set_sync set_chunks]; rewrite Ko; reflexivity. }
+  rewrite Ep, Eo. subst b0. sb_simpl. rewrite vcws_nil in W.
+  cbn [pw pow fold_right]. lia.
+Qed.
+
+(* ------------------------------------------------------------------ futures of the chunks a view produces *)
+Definition fclo (k : clo) : list fid := futures_of (c_view k).
+Definition foclo (k : oclo) : list fid :=
+  match o_view k with Some v => futures_of v | None => [] end.
+Notation vcsfuts := (csfuts clo oclo fclo foclo).
+Notation vsbfuts := (sbfuts clo oclo fclo foclo).
+
+Lemma vcsfuts_app l m : vcsfuts (l ++ m) = vcsfuts l ++ vcsfuts m.
+Proof. apply csfuts_app. Qed.
+Lemma flush_f (b : vsb) : vcsfuts (chunks (flush b)) = vcsfuts (chunks b).
+Proof.
+  unfold flush. destruct (is_nil (sync_buf b)); simpl; auto.
+  rewrite vcsfuts_app. simpl. apply app_nil_r.
+Qed.
+Lemma push_last_f (c : list vchunkT) s : vcsfuts (push_to_last_sync c s) = vcsfuts c.
+Proof.
+  induction c as [|x c IH]; [reflexivity|].
+  destruct c as [|y c'].
+  - destruct x; simpl; auto using app_nil_r.
+  - assert (push_to_last_sync (x :: y :: c') s = x :: push_to_last_sync (y :: c') s) as E
+      by (destruct x; reflexivity).
+    rewrite E.
+    change (vcsfuts (x :: push_to_last_sync (y :: c') s))
+      with (cfuts clo oclo fclo foclo x ++ vcsfuts (push_to_last_sync (y :: c') s)).
+    rewrite IH. reflexivity.
+Qed.
+Lemma finish_f (b : vsb) : vcsfuts (chunks (finish b)) = vcsfuts (chunks b).
+Proof.
+  unfold finish. destruct (is_nil (sync_buf b)); simpl; auto using push_last_f.
+Qed.
+Lemma futures_tuple v vs : futures_of (VTuple (v :: vs)) = futures_of v ++ futures_of (VTuple vs).
+Proof. reflexivity. Qed.
+
+Ltac inc := let x := fresh "x" in let Hx := fresh "Hx" in
+  intros x Hx; repeat (rewrite ?in_app_iff in *; cbn [In] in * ); intuition.
+
+Lemma render_f ooo d v : forall b pos,
+  incl (vcsfuts (chunks (fst (render ooo d v b pos)))) (vcsfuts (chunks b) ++ futures_of v).
+Proof.
+  induction v using view_ind'; intros b pos.
+  - cbn [render]. sb_simpl. inc.
+  - cbn [render futures_of]. destruct (render ooo d v _ FirstChild) as [b1 p1] eqn:E.
+    specialize (IHv (push_sync (open_tag t) b) FirstChild). rewrite E in IHv. sb_simpl. exact IHv.
+  - destruct vs as [|v vs]; [cbn [render]; sb_simpl; inc|]. rewrite render_tuple.
+    revert b pos. induction H as [|w ws Hw Hws IH]; intros b pos.
+    + cbn [render_list]. sb_simpl. inc.
+    + cbn [render_list]. destruct (render ooo d w b pos) as [b1 p1] eqn:E.
+      specialize (Hw b pos). rewrite E in Hw. sb_simpl.
+      specialize (IH b1 p1). rewrite futures_tuple.
+      destruct ws as [|w' ws'].
+      * cbn [render_list] in *. sb_simpl. cbn [futures_of flat_map]. rewrite app_nil_r. exact Hw.
+      * intros x Hx. apply IH in Hx. rewrite in_app_iff in Hx. destruct Hx as [Hx|Hx].
+        -- apply Hw in Hx. rewrite !in_app_iff in *. tauto.
+        -- rewrite !in_app_iff. tauto.
+  - cbn [render futures_of]. destruct (d f).
+    + intros x Hx. apply IHv in Hx. rewrite in_app_iff in *. cbn [In]. tauto.
+    + destruct ooo.
+      * sb_simpl. rewrite vcsfuts_app, !wcm_chunks. sb_simpl. rewrite wcm_chunks. sb_simpl.
+        cbn [csfuts flat_map cfuts foclo o_view]. rewrite app_nil_r. inc.
+      * unfold push_async. sb_simpl. rewrite vcsfuts_app, flush_f. sb_simpl.
+        cbn [csfuts flat_map cfuts fclo c_view]. rewrite app_nil_r. inc.
+  - cbn [render futures_of]. destruct (d f).
+    + destruct sm; [specialize (IHv2 (next_id b) pos)|specialize (IHv1 (next_id b) pos)];
+        sb_simpl; intros x Hx; [apply IHv2 in Hx|apply IHv1 in Hx];
+        rewrite !in_app_iff in *; cbn [In]; rewrite in_app_iff; tauto.
+    + destruct ooo.
+      * sb_simpl. rewrite vcsfuts_app, !wcm_chunks. sb_simpl. rewrite wcm_chunks. sb_simpl.
+        destruct sm; cbn [csfuts flat_map cfuts foclo o_view]; rewrite app_nil_r; inc.
+      * unfold push_async. sb_simpl. rewrite vcsfuts_app, flush_f. sb_simpl.
+        destruct sm; cbn [csfuts flat_map cfuts fclo c_view]; rewrite app_nil_r; inc.
+  - cbn [render futures_of]. destruct (render ooo d v _ pos) as [nb p1] eqn:E.
+    specialize (IHv (sb_new (clone_id b)) pos). rewrite E in IHv. sb_simpl.
+    unfold append. sb_simpl.
+    destruct (existsb _ (chunks nb)); sb_simpl; rewrite vcsfuts_app, ?flush_f;
+      intros x Hx; rewrite in_app_iff in *; destruct Hx as [Hx|Hx]; auto;
+      apply IHv in Hx; auto.
+  - cbn [render]. sb_simpl. inc.
+  - cbn [render futures_of]. unfold push_async. sb_simpl. rewrite vcsfuts_app, flush_f.
+    cbn [csfuts flat_map cfuts fclo c_view]. rewrite app_nil_r. inc.
+Qed.
+
+Lemma res_clo_f k d : incl (vcsfuts (res_clo k d)) (fclo k).
+Proof.
+  unfold res_clo. destruct (render (c_ooo k) d (c_view k) (sb_new (c_id k)) (c_pos k)) as [b p] eqn:E.
+  rewrite take_finish, finish_f.
+  pose proof (render_f (c_ooo k) d (c_view k) (sb_new (c_id k)) (c_pos k)) as R.
+  rewrite E in R. exact R.
+Qed.
+Lemma res_oclo_f k d : incl (vcsfuts (ochunks (res_oclo k d))) (foclo k).
+Proof.
+  unfold res_oclo. cbn [ochunks]. rewrite take_finish, finish_f.
+  destruct k as [i p [v|]]; sb_simpl.
+  - apply (render_f true d v (sb_new (option_map (fun i => i ++ [0%N]) i)) p).
+  - intros x [].
+Qed.
+
+Lemma stream_of_f ooo d v : incl (vsbfuts (stream_of ooo d v)) (futures_of v).
+Proof.
+  unfold stream_of, sbfuts.
+  set (b0 := sb_new (if ooo then Some [0%N] else None)).
+  pose proof (render_keeps ooo d v b0 FirstChild) as [Kp Ko].
+  pose proof (render_f ooo d v b0 FirstChild) as W.
+  assert (pending (finish (fst (render ooo d v b0 FirstChild))) = None) as Ep.
+  { unfold finish. destruct (is_nil _); cbn [pending set_sync set_chunks]; rewrite Kp; reflexivity. }
+  assert (pending_ooo (finish (fst (render ooo d v b0 FirstChild))) = []) as Eo.
+  { unfold finish. destruct (is_nil _); cbn [pending_ooo set_sync set_chunks]; rewrite Ko; reflexivity. }
+  rewrite Ep, Eo, finish_f. simpl. rewrite !app_nil_r. exact W.
+Qed.
+
+(* ------------------------------------------------------------------ positions *)
+(** the renderers look at a position only to ask "does the previous sibling end in text?" *)
+Definition peq (p q : position) : Prop := after_text p = after_text q.
+
+Lemma peq_refl p : peq p p. Proof. reflexivity. Qed.
+Lemma peq_sym p q : peq p q -> peq q p. Proof. unfold peq; auto. Qed.
+Lemma peq_trans p q r : peq p q -> peq q r -> peq p r. Proof. unfold peq; congruence. Qed.
+
+Lemma text_html_peq s p q : peq p q -> text_html s p = text_html s q.
+Proof. unfold peq, text_html. intros E. rewrite E. reflexivity. Qed.
+
+Lemma resolved_peq v : forall p q, peq p q ->
+  fst (resolved v p) = fst (resolved v q) /\ peq (snd (resolved v p)) (snd (resolved v q)).
+Proof.
+  induction v using view_ind'; intros p q E.
+  - cbn [resolved fst snd]. split; [apply text_html_peq; auto|apply peq_refl].
+  - cbn [resolved]. destruct (resolved v FirstChild). cbn [fst snd]. split; [auto|apply peq_refl].
+  - destruct vs as [|v vs]; [cbn [resolved fst snd]; split; [auto|apply peq_refl]|].
+    rewrite !resolved_tuple. revert p q E.
+    induction H as [|w ws Hw Hws IH]; intros p q E.
+    + cbn [resolved_list fst snd]. auto.
+    + cbn [resolved_list]. destruct (Hw p q E) as [A B].
+      destruct (resolved w p) as [h1 p1]. destruct (resolved w q) as [h2 q1]. cbn [fst snd] in *.
+      destruct (IH p1 q1 B) as [C D].
+      destruct (resolved_list ws p1) as [h3 p2]. destruct (resolved_list ws q1) as [h4 q2].
+      cbn [fst snd] in *. subst. auto.
+  - cbn [resolved]. apply IHv; auto.
+  - cbn [resolved]. destruct sm; [apply IHv2|apply IHv1]; auto.
+  - cbn [resolved fst snd]. destruct (IHv p q E) as [A _]. split; auto.
+  - cbn [resolved fst snd]. auto.
+  - cbn [resolved fst snd]. destruct (IHv p q E) as [A _]. split; auto.
+Qed.
+
+(** [pf ooo strict d v pos]: no asynchronous node of [v] that may be pending when it is rendered
+    ([strict]: any node; otherwise: the nodes not complete in [d]) hands back a position whose
+    after-text bit differs from the one its resolved content leaves.  Its negation is the class
+    of finding F-C07-a. *)
+Fixpoint pf (ooo strict : bool) (d : fid -> bool) (v : view) (pos : position) : bool :=
+  match v with
+  | VText _ | VRawSync _ => true
+  | VElem _ c => pf ooo strict d c FirstChild
+  | VTuple vs =>
+      (fix go (vs : list view) (pos : position) : bool :=
+         match vs with
+         | [] => true
+         | v :: vs => pf ooo strict d v pos && go vs (snd (resolved v pos))
+         end) vs pos
+  | VSuspend f c =>
+      if negb strict && d f then pf ooo strict d c pos
+      else Bool.eqb (after_text (snd (resolved c pos))) (if ooo then after_text pos else false)
+           && pf ooo true d c pos
+  | VBoundary f fb c sm =>
+      let x := if sm then c else fb in
+      if negb strict && d f then pf ooo strict d x pos
+      else Bool.eqb (after_text (snd (resolved x pos))) (if ooo then after_text pos else false)
+           && pf ooo true d x pos
+  | VAppend c => pf ooo strict d c pos
+  | VRawAsync f c => pf ooo true d c pos
+  end.
+
+Fixpoint pf_list (ooo strict : bool) (d : fid -> bool) (vs : list view) (pos : position) : bool :=
+  match vs with
+  | [] => true
+  | v :: vs => pf ooo strict d v pos && pf_list ooo strict d vs (snd (resolved v pos))
+  end.
+Lemma pf_tuple ooo strict d vs pos : pf ooo strict d (VTuple vs) pos = pf_list ooo strict d vs pos.
+Proof.
+  cbn [pf]. revert pos. induction vs as [|v vs IH]; intros pos; cbn [pf_list]; auto.
+  rewrite <- IH. reflexivity.
+Qed.
+
+Lemma pf_peq ooo d v : forall strict p q, peq p q -> pf ooo strict d v p = pf ooo strict d v q.
+Proof.
+  induction v using view_ind'; intros strict p q E; try reflexivity.
+  - rewrite !pf_tuple. revert p q E.
+    induction H as [|w ws Hw Hws IH]; intros p q E; cbn [pf_list]; auto.
+    rewrite (Hw strict p q E). f_equal. apply IH. apply resolved_peq; auto.
+  - cbn [pf]. destruct (resolved_peq v p q E) as [_ B]. unfold peq in *.
+    rewrite (IHv strict p q E), (IHv true p q E), B, E. reflexivity.
+  - cbn [pf]. destruct sm.
+    + destruct (resolved_peq v2 p q E) as [_ B]. unfold peq in *.
+      rewrite (IHv2 strict p q E), (IHv2 true p q E), B, E. reflexivity.
+    + destruct (resolved_peq v1 p q E) as [_ B]. unfold peq in *.
+      rewrite (IHv1 strict p q E), (IHv1 true p q E), B, E. reflexivity.
+  - cbn [pf]. apply IHv; auto.
+  - cbn [pf]. apply IHv; auto.
+Qed.
+
+Lemma pf_strict_d ooo d d' v : forall p, pf ooo true d v p = pf ooo true d' v p.
+Proof.
+  induction v using view_ind'; intros p; try reflexivity.
+  - cbn [pf]. apply IHv.
+  - rewrite !pf_tuple.
+    revert p. induction H as [|w ws Hw Hws IH]; intros p; cbn [pf_list]; auto.
+    rewrite Hw, IH. reflexivity.
+  - cbn [pf negb andb]. rewrite IHv. reflexivity.
+  - cbn [pf negb andb]. destruct sm; [rewrite IHv2|rewrite IHv1]; reflexivity.
+  - cbn [pf]. apply IHv.
+  - cbn [pf]. apply IHv.
+Qed.
+
+Lemma pf_weaken ooo d d' v : forall p, pf ooo true d v p = true -> pf ooo false d' v p = true.
+Proof.
+  induction v using view_ind'; intros p; try reflexivity.
+  - cbn [pf]. apply IHv.
+  - rewrite !pf_tuple.
+    revert p. induction H as [|w ws Hw Hws IH]; intros p; cbn [pf_list]; auto.
+    rewrite !andb_true_iff. intros [A B]. split; auto.
+  - cbn [pf negb andb]. destruct (d' f); rewrite !andb_true_iff; [intros [_ A]; auto|].
+    intros [A B]. split; auto. rewrite (pf_strict_d ooo d' d v p). exact B.
+  - cbn [pf negb andb].
+    destruct sm; destruct (d' f); rewrite !andb_true_iff; try (intros [_ A]; auto; fail);
+      intros [A B]; split; auto;
+      [rewrite (pf_strict_d ooo d' d v2 p)|rewrite (pf_strict_d ooo d' d v1 p)]; exact B.
+  - cbn [pf]. apply IHv.
+  - cbn [pf]. intros A. rewrite (pf_strict_d ooo d' d v p). exact A.
+Qed.
+
+(* ------------------------------------------------------------------ in-order rendering *)
+Definition okclo (k : clo) : Prop :=
+  c_ooo k = false /\ pf false true (fun _ => false) (c_view k) (c_pos k) = true.
+Definition cclo (k : clo) : html := fst (resolved (c_view k) (c_pos k)).
+Notation vokc := (okc clo oclo okclo).
+Notation vflat := (flat clo oclo cclo).
+Definition flatb (b : vsb) : html := vflat (chunks b) ++ sync_buf b.
+
+Lemma vflat_app l m : vflat (l ++ m) = vflat l ++ vflat m.
+Proof. apply flat_app. Qed.
+
+Lemma flush_io (b : vsb) :
+  Forall vokc (chunks b) -> Forall vokc (chunks (flush b)) /\ flatb (flush b) = flatb b.
+Proof.
+  unfold flush, flatb. intros F. destruct (is_nil (sync_buf b)) eqn:E; [auto|].
+  sb_simpl. split.
+  - apply Forall_app. split; auto. constructor; simpl; auto.
+  - rewrite vflat_app. simpl. rewrite !app_nil_r. reflexivity.
+Qed.
+
+Lemma push_last_io (c : list vchunkT) s :
+  Forall vokc c -> Forall vokc (push_to_last_sync c s) /\ vflat (push_to_last_sync c s) = vflat c ++ s.
+Proof.
+  induction c as [|x c IH]; intros F.
+  - simpl. split; [constructor; simpl; auto|rewrite app_nil_r; auto].
+  - inversion F as [|? ? Fx Fc]; subst. destruct c as [|y c'].
+    + destruct x; simpl;
+        (split; [repeat (first [apply Forall_nil
+                               | apply Forall_cons; [first [exact Fx | exact I]|]])|]);
+        rewrite ?app_nil_r, <- ?app_assoc; auto.
+    + assert (push_to_last_sync (x :: y :: c') s = x :: push_to_last_sync (y :: c') s) as E
+        by (destruct x; reflexivity).
+      rewrite E. destruct (IH Fc) as [A B]. split; [constructor; auto|].
+      change (vflat (x :: push_to_last_sync (y :: c') s))
+        with (flat1 clo oclo cclo x ++ vflat (push_to_last_sync (y :: c') s)).
+      rewrite B. change (vflat (x :: y :: c')) with (flat1 clo oclo cclo x ++ vflat (y :: c')).
+      rewrite app_assoc. reflexivity.
+Qed.
+
+Lemma finish_io (b : vsb) :
+  Forall vokc (chunks b) ->
+  Forall vokc (chunks (finish b)) /\ vflat (chunks (finish b)) = flatb b.
+Proof.
+  unfold finish, flatb. intros F. destruct (is_nil (sync_buf b)) eqn:E.
+  - apply is_nil_true in E. rewrite E, app_nil_r. auto.
+  - sb_simpl. apply push_last_io; auto.
+Qed.
+
+Lemma render_io d v : forall b p q,
+  peq p q -> pf false false d v q = true -> Forall vokc (chunks b) ->
+  Forall vokc (chunks (fst (render false d v b p)))
+  /\ flatb (fst (render false d v b p)) = flatb b ++ fst (resolved v q)
+  /\ peq (snd (render false d v b p)) (snd (resolved v q)).
+Proof.
+  induction v using view_ind'; intros b p q E PF Fb.
+  - cbn [render resolved fst snd]. unfold flatb. sb_simpl.
+    rewrite (text_html_peq s p q E), app_assoc. auto using peq_refl.
+  - cbn [render resolved pf] in *.
+    specialize (IHv (push_sync (open_tag t) b) FirstChild FirstChild (peq_refl _) PF Fb).
+    destruct (render false d v _ FirstChild) as [b1 p1]. destruct (resolved v FirstChild) as [h q1].
+    cbn [fst snd] in *. destruct IHv as [A [B C]]. unfold flatb in *. sb_simpl.
+    split; [auto|split; [|apply peq_refl]].
+    rewrite app_assoc, B. rewrite <- !app_assoc. reflexivity.
+  - destruct vs as [|v vs].
+    + cbn [render resolved fst snd]. unfold flatb. sb_simpl. rewrite app_assoc.
+      auto using peq_refl.
+    + rewrite render_tuple, resolved_tuple. rewrite pf_tuple in PF.
+      revert b p q E PF Fb. induction H as [|w ws Hw Hws IH]; intros b p q E PF Fb.
+      * cbn [render_list resolved_list fst snd]. rewrite app_nil_r. auto.
+      * cbn [render_list resolved_list pf_list] in *. apply andb_true_iff in PF.
+        destruct PF as [PF1 PF2].
+        specialize (Hw b p q E PF1 Fb).
+        destruct (render false d w b p) as [b1 p1]. destruct (resolved w q) as [h1 q1].
+        cbn [fst snd] in *. destruct Hw as [A [B C]].
+        specialize (IH b1 p1 q1 C PF2 A).
+        destruct (render_list false d ws b1 p1) as [b2 p2].
+        destruct (resolved_list ws q1) as [h2 q2]. cbn [fst snd] in *.
+        destruct IH as [A2 [B2 C2]]. split; [auto|split; [|auto]].
+        rewrite B2, B, app_assoc. reflexivity.
+  - cbn [render resolved pf negb andb] in *. destruct (d f).
+    + apply IHv; auto.
+    + apply andb_true_iff in PF. destruct PF as [PF1 PF2].
+      apply eqb_prop in PF1.
+      unfold push_async. destruct (flush_io (next_id b) Fb) as [A B]. sb_simpl.
+      split; [|split].
+      * apply Forall_app. split; auto. constructor; [|constructor].
+        simpl. split; auto. rewrite (pf_peq false _ v true p q E).
+        rewrite (pf_strict_d false _ d v q). exact PF2.
+      * unfold flatb in *. sb_simpl. rewrite vflat_app.
+        change (vflat [CAsync f _]) with (fst (resolved v p) ++ []).
+        destruct (resolved_peq v p q E) as [R1 _]. rewrite R1.
+        assert (sync_buf (flush (next_id b)) = []) as Es.
+        { unfold flush. destruct (is_nil (sync_buf (next_id b))) eqn:En; sb_simpl; auto.
+          apply is_nil_true in En. exact En. }
+        rewrite Es in *. rewrite !app_nil_r in *. sb_simpl. rewrite B. reflexivity.
+      * unfold peq. rewrite PF1. reflexivity.
+  - cbn [render resolved pf negb andb] in *. destruct (d f).
+    + destruct sm; [exact (IHv2 (next_id b) p q E PF Fb)|exact (IHv1 (next_id b) p q E PF Fb)].
+    + apply andb_true_iff in PF. destruct PF as [PF1 PF2].
+      apply eqb_prop in PF1.
+      unfold push_async. destruct (flush_io (next_id b) Fb) as [A B]. sb_simpl.
+      set (x := if sm then v2 else v1) in *.
+      assert (resolved (if sm then v2 else v1) q = (if sm then resolved v2 q else resolved v1 q)) as Ex
+        by (destruct sm; reflexivity).
+      fold x in Ex. rewrite <- Ex.
+      split; [|split].
+      * apply Forall_app. split; auto. constructor; [|constructor].
+        simpl. split; auto. rewrite (pf_peq false _ x true p q E).
+        rewrite (pf_strict_d false _ d x q). exact PF2.
+      * unfold flatb in *. sb_simpl. rewrite vflat_app.
+        change (vflat [CAsync f _]) with (fst (resolved x p) ++ []).
+        destruct (resolved_peq x p q E) as [R1 _]. rewrite R1.
+        assert (sync_buf (flush (next_id b)) = []) as Es.
+        { unfold flush. destruct (is_nil (sync_buf (next_id b))) eqn:En; sb_simpl; auto.
+          apply is_nil_true in En. exact En. }
+        rewrite Es in *. rewrite !app_nil_r in *. sb_simpl. rewrite B. reflexivity.
+      * unfold peq. rewrite PF1. reflexivity.
+  - cbn [render resolved pf fst snd] in *.
+    specialize (IHv (sb_new (clone_id b)) p q E PF (Forall_nil _)).
+    destruct (render false d v (sb_new (clone_id b)) p) as [nb p1]. cbn [fst snd] in *.
+    destruct IHv as [A [B _]]. unfold flatb in B. sb_simpl. cbn [flat flat_map app] in B.
+    split; [|split; [|exact E]].
+    + unfold append. sb_simpl. destruct (existsb _ (chunks nb)); sb_simpl.
+      * apply Forall_app. split; auto. apply flush_io; auto.
+      * apply Forall_app. split; auto.
+    + unfold append, flatb. sb_simpl. destruct (existsb _ (chunks nb)) eqn:Ex; sb_simpl.
+      * destruct (flush_io b Fb) as [_ Fl]. unfold flatb in Fl.
+        assert (sync_buf (flush b) = []) as Es.
+        { unfold flush. destruct (is_nil (sync_buf b)) eqn:En; sb_simpl; auto.
+          apply is_nil_true in En. exact En. }
+        rewrite Es in *. rewrite app_nil_r in Fl. rewrite vflat_app, Fl. cbn [app].
+        rewrite <- B, <- !app_assoc. reflexivity.
+      * (* every chunk of nb is out-of-order, but in-order chunks never are: nb has no chunks *)
+        assert (chunks nb = []) as En.
+        { destruct (chunks nb) as [|c cs]; auto. exfalso. inversion A as [|? ? Hc Hcs]; subst.
+          cbn [existsb] in Ex. destruct c; simpl in Hc; try contradiction; discriminate. }
+        rewrite En in *. rewrite app_nil_r. cbn [flat flat_map app] in B.
+        rewrite <- B, app_assoc. reflexivity.
+  - cbn [render resolved fst snd]. unfold flatb. sb_simpl. rewrite app_assoc. auto.
+  - cbn [render resolved pf fst snd] in *.
+    unfold push_async. destruct (flush_io b Fb) as [A B]. sb_simpl.
+    split; [|split; [|exact E]].
+    + apply Forall_app. split; auto. constructor; [|constructor].
+      simpl. split; auto. rewrite (pf_peq false _ v true p q E).
+      rewrite (pf_strict_d false _ d v q). exact PF.
+    + unfold flatb in *. sb_simpl. rewrite vflat_app.
+      change (vflat [CAsync f _]) with (fst (resolved v p) ++ []).
+      destruct (resolved_peq v p q E) as [R1 _]. rewrite R1.
+      assert (sync_buf (flush b) = []) as Es.
+      { unfold flush. destruct (is_nil (sync_buf b)) eqn:En; sb_simpl; auto.
+        apply is_nil_true in En. exact En. }
+      rewrite Es in *. rewrite !app_nil_r in *. rewrite B. reflexivity.
+Qed.
+
+(* ------------------------------------------------------------------ in-order rendering has in-order shape *)
+Definition ioclo (k : clo) : Prop := c_ooo k = false.
+Notation sokc := (okc clo oclo ioclo).
+Notation vshape := (shape clo oclo ioclo).
+
+Lemma flush_shape (b : vsb) : Forall sokc (chunks b) -> Forall sokc (chunks (flush b)).
+Proof.
+  unfold flush. intros F. destruct (is_nil (sync_buf b)); auto. sb_simpl.
+  apply Forall_app. split; auto. constructor; simpl; auto.
+Qed.
+Lemma push_last_shape (c : list vchunkT) s : Forall sokc c -> Forall sokc (push_to_last_sync c s).
+Proof.
+  induction c as [|x c IH]; intros F.
+  - simpl. constructor; simpl; auto.
+  - inversion F as [|? ? Fx Fc]; subst. destruct c as [|y c'].
+    + destruct x; simpl;
+        repeat (first [apply Forall_nil | apply Forall_cons; [first [exact Fx | exact I]|]]).
+    + assert (push_to_last_sync (x :: y :: c') s = x :: push_to_last_sync (y :: c') s) as E
+        by (destruct x; reflexivity).
+      rewrite E. constructor; auto.
+Qed.
+Lemma finish_shape (b : vsb) : Forall sokc (chunks b) -> Forall sokc (chunks (finish b)).
+Proof.
+  unfold finish. intros F. destruct (is_nil (sync_buf b)); auto. sb_simpl.
+  apply push_last_shape; auto.
+Qed.
+
+Lemma render_shape d v : forall b p,
+  Forall sokc (chunks b) -> Forall sokc (chunks (fst (render false d v b p))).
+Proof.
+  induction v using view_ind'; intros b p Fb.
+  - cbn [render]. sb_simpl. auto.
+  - cbn [render]. specialize (IHv (push_sync (open_tag t) b) FirstChild Fb).
+    destruct (render false d v _ FirstChild) as [b1 p1]. sb_simpl. auto.
+  - destruct vs as [|v vs]; [cbn [render]; sb_simpl; auto|]. rewrite render_tuple.
+    revert b p Fb. induction H as [|w ws Hw Hws IH]; intros b p Fb; cbn [render_list]; auto.
+    specialize (Hw b p Fb). destruct (render false d w b p) as [b1 p1]. apply IH. exact Hw.
+  - cbn [render]. destruct (d f); [apply IHv; auto|].
+    unfold push_async. sb_simpl. apply Forall_app. split; [apply (flush_shape (next_id b) Fb)|].
+    constructor; [reflexivity|constructor].
+  - cbn [render]. destruct (d f).
+    + destruct sm; [exact (IHv2 (next_id b) p Fb)|exact (IHv1 (next_id b) p Fb)].
+    + unfold push_async. sb_simpl. apply Forall_app. split; [apply (flush_shape (next_id b) Fb)|].
+      constructor; [reflexivity|constructor].
+  - cbn [render]. specialize (IHv (sb_new (clone_id b)) p (Forall_nil _)).
+    destruct (render false d v (sb_new (clone_id b)) p) as [nb p1]. sb_simpl.
+    unfold append. sb_simpl. destruct (existsb _ (chunks nb)); sb_simpl;
+      apply Forall_app; split; auto. apply flush_shape; auto.
+  - cbn [render]. sb_simpl. auto.
+  - cbn [render]. unfold push_async. sb_simpl. apply Forall_app. split; [apply flush_shape; auto|].
+    constructor; [reflexivity|constructor].
+Qed.
+
+Lemma res_clo_shape : forall k d, ioclo k -> Forall sokc (res_clo k d).
+Proof.
+  intros [o i p v] d E. unfold ioclo in E. cbn [c_ooo] in E. subst o.
+  unfold res_clo. cbn [c_ooo c_view c_pos c_id].
+  pose proof (render_shape d v (sb_new i) p (Forall_nil _)) as R.
+  destruct (render false d v (sb_new i) p) as [b p1]. cbn [fst] in R.
+  rewrite take_finish. apply finish_shape; auto.
+Qed.
+
+Lemma stream_of_shape d v : vshape (stream_of false d v).
+Proof.
+  unfold stream_of. set (b0 := sb_new None : vsb).
+  pose proof (render_keeps false d v b0 FirstChild) as [Kp Ko].
+  pose proof (render_shape d v b0 FirstChild (Forall_nil _)) as R.
+  unfold shape. split; [apply finish_shape; auto|].
+  unfold finish. destruct (is_nil _); cbn [pending pending_ooo set_sync set_chunks];
+    rewrite Kp, Ko; cbn [pending pending_ooo b0 sb_new]; auto.
+Qed.
+
+(* ================================================================== part 3: the stream of a view *)
+From LV Require Import Base.Sexp Html.StreamRun.
+Local Open Scope nat_scope.
+
+Notation vrun_state := (run_state clo oclo).
+Notation vio_ok := (io_ok clo oclo okclo).
+Notation vcontent := (content clo oclo cclo).
+Notation vgood := (good clo oclo wclo woclo fclo foclo).
+Notation vphi := (phi clo oclo wclo woclo).
+
+Lemma res_clo_ok : forall k d, okclo k ->
+  Forall vokc (res_clo k d) /\ vflat (res_clo k d) = cclo k.
+Proof.
+  intros [o i p v] d [Eo PF]. cbn [c_ooo c_view c_pos] in *. subst o.
+  unfold res_clo. cbn [c_ooo c_view c_pos c_id].
+  change (cclo {| c_ooo := false; c_id := i; c_pos := p; c_view := v |}) with (fst (resolved v p)).
+  pose proof (render_io d v (sb_new i) p p (peq_refl p)
+                (pf_weaken false _ d v p PF) (Forall_nil _)) as R.
+  destruct (render false d v (sb_new i) p) as [b p1]. cbn [fst snd] in R.
+  destruct R as [A [B _]]. rewrite take_finish.
+  destruct (finish_io b A) as [C D]. split; auto. rewrite D, B. reflexivity.
+Qed.
+
+Lemma stream_of_io d v : pf false false d v FirstChild = true ->
+  vio_ok (stream_of false d v) /\ vcontent (stream_of false d v) = fst (resolved v FirstChild).
+Proof.
+  intros PF. unfold stream_of.
+  set (b0 := sb_new None : vsb).
+  pose proof (render_keeps false d v b0 FirstChild) as [Kp Ko].
+  pose proof (render_io d v b0 FirstChild FirstChild (peq_refl _) PF (Forall_nil _)) as R.
+  destruct R as [A [B _]]. destruct (finish_io _ A) as [C D].
+  assert (pending (finish (fst (render false d v b0 FirstChild))) = None) as Ep.
+  { unfold finish. destruct (is_nil _); cbn [pending set_sync set_chunks]; rewrite Kp; reflexivity. }
+  assert (pending_ooo (finish (fst (render false d v b0 FirstChild))) = []) as Eo.
+  { unfold finish. destruct (is_nil _); cbn [pending_ooo set_sync set_chunks]; rewrite Ko; reflexivity. }
+  split.
+  - unfold io_ok. rewrite Ep, Eo. auto.
+  - unfold content. rewrite Ep, finish_sync, D, B. reflexivity.
+Qed.
+
+Lemma sort_N_in x l : In x (sort_N l) <-> In x l.
+Proof.
+  unfold sort_N. induction l as [|y l IH]; simpl; [tauto|].
+  assert (forall z m, In z (insert_sorted y m) <-> z = y \/ In z m) as Hi.
+  { intros z m. induction m as [|w m IHm]; simpl; [intuition|].
+    destruct (N.leb y w); simpl; rewrite ?IHm; intuition. }
+  rewrite Hi, IH. intuition.
+Qed.
+
+Definition mem (l : list fid) : fid -> bool := fun f => memf f l.
+
+(** the class of finding F-C07-a: some asynchronous node that can be pending when it is
+    rendered hands back a position that disagrees with its resolved content *)
+Definition known_class (ooo : bool) (init : list fid) (v : view) : bool :=
+  negb (pf ooo false (mem init) v FirstChild).
+
+Lemma somes_app a b : somes (a ++ b) = somes a ++ somes b.
+Proof. unfold somes. apply flat_map_app. Qed.
+
+Section InOrder.
+Variable v : view.
+Variable init : list fid.
+Variable n : nat.
+Hypothesis Hn : poll_fuel v <= n.
+Hypothesis Hk : known_class false init v = false.
+
+Let F := futures_of v.
+Let fuel := poll_fuel v.
+Let s0 := init_state false init v.
+
+Lemma io_pf : pf false false (mem init) v FirstChild = true.
+Proof. unfold known_class in Hk. destruct (pf _ _ _ _ _); simpl in Hk; congruence. Qed.
+
+Lemma io_inv_poll : forall fuel d (b : vsb), vio_ok b ->
+  vio_ok (snd (fst (vpoll fuel d b))) /\ fst (fst (vpoll fuel d b)) <> PPanic.
+Proof. apply (inv_poll_io clo oclo res_clo res_oclo cclo okclo res_clo_ok). Qed.
+
+Lemma io_good0 : vgood vio_ok F fuel n s0.
+Proof.
+  unfold s0, init_state. constructor; cbn [rs_sb].
+  - apply stream_of_io. apply io_pf.
+  - apply stream_of_f.
+  - pose proof (stream_of_mu false (fun f => memf f init) v). unfold fuel. lia.
+  - pose proof (stream_of_mu false (fun f => memf f init) v). lia.
+Qed.
+
+(** F-C07-a aside, the in-order stream concatenates to the resolved render, for every schedule;
+    it ends (None is returned) and nothing goes wrong on the way *)
+Theorem in_order_concat_free ev :
+  let l := run_free n false v init ev in
+  somes l = fst (resolved v FirstChild) /\ In ONone l /\ clean l.
+Proof.
+  cbv zeta. unfold run_free. fold fuel. fold s0.
+  pose proof io_good0 as G0.
+  destruct (stream_of_io (mem init) v io_pf) as [I0 C0].
+  assert (ended_ok clo oclo cclo s0) as E0 by (unfold ended_ok, s0, init_state; simpl; discriminate).
+  pose proof (run_events_io clo oclo res_clo res_oclo cclo okclo res_clo_ok fuel ev s0 I0 E0) as RE.
+  pose proof (run_events_good clo oclo res_clo res_oclo wclo woclo res_clo_w res_oclo_w
+                fclo foclo res_clo_f res_oclo_f vio_ok io_inv_poll F fuel n ev s0 G0) as RG.
+  destruct (run_events clo oclo res_clo res_oclo fuel ev s0) as [s1 l1]. cbn [fst snd] in *.
+  destruct RE as [I1 [E1 C1]]. destruct RG as [G1 [D1 [CL1 EN1]]].
+  pose proof (complete_all_good clo oclo wclo woclo fclo foclo vio_ok F fuel n
+                (sort_N (futures_of v)) s1 G1) as CA.
+  destruct (complete_all clo oclo (sort_N (futures_of v)) s1) as [s2 l2]. cbn [fst snd] in *.
+  destruct CA as [G2 [D2 [Esb [Een [S2 CL2]]]]].
+  assert (all_done clo oclo F s2) as AD.
+  { intros f Hf. apply D2. left. apply sort_N_in. exact Hf. }
+  assert (vphi (rs_sb s2) < n) as Hp.
+  { pose proof (phi_le clo oclo wclo woclo (rs_sb s2)). pose proof (g_n _ _ _ _ _ _ _ _ _ _ _ G2). lia. }
+  pose proof (drain_terminates clo oclo res_clo res_oclo wclo woclo res_clo_w res_oclo_w
+                fclo foclo res_clo_f res_oclo_f vio_ok io_inv_poll F fuel n n s2 G2 AD Hp) as DT.
+  assert (vio_ok (rs_sb s2)) as I2 by (rewrite Esb; auto).
+  assert (ended_ok clo oclo cclo s2) as E2 by (unfold ended_ok; rewrite Esb, Een; auto).
+  pose proof (drain_io clo oclo res_clo res_oclo cclo okclo res_clo_ok fuel n s2 I2 E2) as DI.
+  destruct (drain clo oclo res_clo res_oclo fuel n s2) as [s3 l3]. cbn [fst snd] in *.
+  destruct DT as [En3 [G3 [Len3 [L3 N3]]]]. destruct DI as [I3 [E3 C3]].
+  assert (vcontent (rs_sb s3) = []) as Z by (apply E3; auto).
+  split; [|split].
+  - rewrite !somes_app, S2. cbn [app]. rewrite <- C0.
+    unfold s0, init_state in C1. cbn [rs_sb] in C1.
+    change (stream_of false (mem init) v) with (stream_of false (fun f => memf f init) v).
+    rewrite C1. rewrite <- Esb, C3, Z, app_nil_r. reflexivity.
+  - rewrite !in_app_iff. destruct (rs_ended s2) eqn:En2.
+    + symmetry in Een. destruct (EN1 Een) as [X|X]; [|auto].
+      unfold s0, init_state in X. cbn [rs_ended] in X. discriminate.
+    + right. right. apply N3. reflexivity.
+  - apply clean_app; [auto|apply clean_app; [auto|]].
+    intros o Ho. destruct (L3 o Ho) as [X|[x X]]; subst; repeat split; discriminate.
+Qed.
+
+End InOrder.
+
+(* ------------------------------------------------------------------ all views, in-order: liveness *)
+Lemma shape_inv_poll : forall fuel d (b : vsb), vshape b ->
+  vshape (snd (fst (vpoll fuel d b))) /\ fst (fst (vpoll fuel d b)) <> PPanic.
+Proof. apply (poll_shape clo oclo res_clo res_oclo ioclo res_clo_shape). Qed.
+
+Lemma shape_good0 v init n : poll_fuel v <= n ->
+  vgood vshape (futures_of v) (poll_fuel v) n (init_state false init v).
+Proof.
+  intros Hn. unfold init_state. constructor; cbn [rs_sb].
+  - apply stream_of_shape.
+  - apply stream_of_f.
+  - pose proof (stream_of_mu false (fun f => memf f init) v). lia.
+  - pose proof (stream_of_mu false (fun f => memf f init) v). lia.
+Qed.
+
+(** once every future has completed, the in-order stream of ANY view returns None within
+    [poll_fuel v] polls, whatever happened before (schedule [ev]) *)
+Theorem terminates_in_order v init ev :
+  let s1 := fst (run_events clo oclo res_clo res_oclo (poll_fuel v) ev (init_state false init v)) in
+  let s2 := fst (complete_all clo oclo (sort_N (futures_of v)) s1) in
+  let '(s3, l) := drain clo oclo res_clo res_oclo (poll_fuel v) (poll_fuel v) s2 in
+  rs_ended s3 = true /\ length l <= poll_fuel v
+  /\ (forall o, In o l -> o = ONone \/ exists x, o = OSome x).
+Proof.
+  cbv zeta.
+  pose proof (shape_good0 v init (poll_fuel v) (le_n _)) as G0.
+  pose proof (run_events_good clo oclo res_clo res_oclo wclo woclo res_clo_w res_oclo_w
+                fclo foclo res_clo_f res_oclo_f vshape shape_inv_poll (futures_of v)
+                (poll_fuel v) (poll_fuel v) ev _ G0) as [G1 _].
+  set (s1 := fst (run_events clo oclo res_clo res_oclo (poll_fuel v) ev (init_state false init v))) in *.
+  pose proof (complete_all_good clo oclo wclo woclo fclo foclo vshape (futures_of v)
+                (poll_fuel v) (poll_fuel v) (sort_N (futures_of v)) s1 G1) as [G2 [D2 _]].
+  set (s2 := fst (complete_all clo oclo (sort_N (futures_of v)) s1)) in *.
+  assert (all_done clo oclo (futures_of v) s2) as AD.
+  { intros f Hf. apply D2. left. apply sort_N_in. exact Hf. }
+  assert (vphi (rs_sb s2) < poll_fuel v) as Hp.
+  { pose proof (phi_le clo oclo wclo woclo (rs_sb s2)). pose proof (g_n _ _ _ _ _ _ _ _ _ _ _ G2). lia. }
+  pose proof (drain_terminates clo oclo res_clo res_oclo wclo woclo res_clo_w res_oclo_w
+                fclo foclo res_clo_f res_oclo_f vshape shape_inv_poll (futures_of v)
+                (poll_fuel v) (poll_fuel v) (poll_fuel v) s2 G2 AD Hp) as DT.
+  destruct (drain clo oclo res_clo res_oclo (poll_fuel v) (poll_fuel v) s2) as [s3 l].
+  destruct DT as [A [_ [B [C _]]]]. split; [auto|split; [|auto]].
+  pose proof (phi_le clo oclo wclo woclo (rs_sb s2)). pose proof (g_n _ _ _ _ _ _ _ _ _ _ _ G2). lia.
+Qed.
+
+(** an executor that polls the in-order stream of ANY view only when its waker fires never
+    stalls: after the last completion the stream has ended *)
+Theorem executor_never_stalls_in_order v init ev n : poll_fuel v <= n ->
+  clean (run_executor n false v init ev) /\ In ONone (run_executor n false v init ev).
+Proof.
+  intros Hn. unfold run_executor.
+  pose proof (shape_good0 v init n Hn) as G0.
+  assert (vphi (rs_sb (init_state false init v)) < n) as Hp.
+  { pose proof (phi_le clo oclo wclo woclo (rs_sb (init_state false init v))).
+    pose proof (g_n _ _ _ _ _ _ _ _ _ _ _ G0). lia. }
+  pose proof (run_task_parked clo oclo res_clo res_oclo wclo woclo res_clo_w res_oclo_w
+                fclo foclo res_clo_f res_oclo_f vshape shape_inv_poll (futures_of v)
+                (poll_fuel v) n n _ G0 Hp) as RT.
+  destruct (run_task clo oclo res_clo res_oclo (poll_fuel v) n (init_state false init v)) as [s1 l1].
+  destruct RT as [P1 [G1 [D1 [L1 N1]]]].
+  assert (forall f, In f (futures_of v) ->
+            In f (completes ev ++ sort_N (futures_of v)) \/ memf f (rs_done s1) = true) as Hall.
+  { intros f Hf. left. apply in_app_iff. right. apply sort_N_in. exact Hf. }
+  pose proof (run_exec_ends clo oclo res_clo res_oclo wclo woclo res_clo_w res_oclo_w
+                fclo foclo res_clo_f res_oclo_f vshape shape_inv_poll (futures_of v)
+                (poll_fuel v) n (completes ev ++ sort_N (futures_of v)) s1 G1 P1 Hall) as RE.
+  destruct (run_exec clo oclo res_clo res_oclo (poll_fuel v) n
+              (completes ev ++ sort_N (futures_of v)) s1) as [s2 l2].
+  destruct RE as [En [L2 N2]]. split.
+  - intros o Ho. apply in_app_iff in Ho. destruct Ho as [Ho|Ho].
+    + destruct (L1 o Ho) as [X|[X|[x X]]]; subst; repeat split; discriminate.
+    + destruct (L2 o Ho) as [X|[X|[[x X]|[w X]]]]; subst; repeat split; discriminate.
+  - apply in_app_iff. destruct N2 as [N2|N2]; [|auto].
+    destruct (N1 N2) as [X|X]; [|auto]. unfold init_state in X. cbn [rs_ended] in X. discriminate.
+Qed.
+
+(** … and under the executor drive *)
+Theorem in_order_concat_exec v init n ev :
+  poll_fuel v <= n -> known_class false init v = false ->
+  somes (run_executor n false v init ev) = fst (resolved v FirstChild).
+Proof.
+  intros Hn Hk. unfold run_executor.
+  pose proof (io_good0 v init n Hn Hk) as G0.
+  destruct (stream_of_io (mem init) v (io_pf v init Hk)) as [I0 C0].
+  set (s0 := init_state false init v) in *.
+  assert (ended_ok clo oclo cclo s0) as E0 by (unfold ended_ok, s0, init_state; simpl; discriminate).
+  assert (vphi (rs_sb s0) < n) as Hp.
+  { pose proof (phi_le clo oclo wclo woclo (rs_sb s0)). pose proof (g_n _ _ _ _ _ _ _ _ _ _ _ G0). lia. }
+  pose proof (run_task_parked clo oclo res_clo res_oclo wclo woclo res_clo_w res_oclo_w
+                fclo foclo res_clo_f res_oclo_f vio_ok io_inv_poll (futures_of v)
+                (poll_fuel v) n n s0 G0 Hp) as RT.
+  pose proof (run_task_io clo oclo res_clo res_oclo cclo okclo res_clo_ok (poll_fuel v) n s0 I0 E0) as TI.
+  destruct (run_task clo oclo res_clo res_oclo (poll_fuel v) n s0) as [s1 l1]. cbn [fst snd] in *.
+  destruct RT as [P1 [G1 [D1 [L1 N1]]]]. destruct TI as [I1 [E1 C1]].
+  assert (forall f, In f (futures_of v) ->
+            In f (completes ev ++ sort_N (futures_of v)) \/ memf f (rs_done s1) = true) as Hall.
+  { intros f Hf. left. apply in_app_iff. right. apply sort_N_in. exact Hf. }
+  pose proof (run_exec_ends clo oclo res_clo res_oclo wclo woclo res_clo_w res_oclo_w
+                fclo foclo res_clo_f res_oclo_f vio_ok io_inv_poll (futures_of v)
+                (poll_fuel v) n (completes ev ++ sort_N (futures_of v)) s1 G1 P1 Hall) as RE.
+  pose proof (run_exec_io clo oclo res_clo res_oclo cclo okclo res_clo_ok (poll_fuel v) n
+                (completes ev ++ sort_N (futures_of v)) s1 I1 E1) as EI.
+  destruct (run_exec clo oclo res_clo res_oclo (poll_fuel v) n
+              (completes ev ++ sort_N (futures_of v)) s1) as [s2 l2]. cbn [fst snd] in *.
+  destruct RE as [En _]. destruct EI as [I2 [E2 C2]].
+  rewrite somes_app, <- C0.
+  change (stream_of false (mem init) v) with (rs_sb s0).
+  rewrite C1, C2, (E2 En), app_nil_r. reflexivity.
+Qed.
+
+(* ------------------------------------------------------------------ no lost wake-up, any view, both modes *)
+(** whenever a poll of the stream of a view — in-order or out-of-order, in any reachable or
+    unreachable state — returns Pending, some future of that stream is incomplete, holds the
+    task's waker and is still owned by the stream; completing it wakes the task *)
+Theorem no_lost_wake_view fuel (s s' : vrun_state) :
+  step_poll clo oclo res_clo res_oclo fuel s = (s', PPending) ->
+  exists f, In f (rs_reg s') /\ memf f (rs_done s') = false
+            /\ In f (vsbfuts (rs_sb s)) /\ holds clo oclo (rs_sb s') f
+            /\ snd (step_complete clo oclo f s') = 1%N.
+Proof.
+  apply (pending_is_parked clo oclo res_clo res_oclo fclo foclo res_clo_f res_oclo_f).
+Qed.
+
+(* ------------------------------------------------------------------ F-C07-a *)
+Definition witness_view : view := VTuple [VText [97%N]; VSuspend 1%N (VText [98%N]); VText [99%N]].
+
+(** ("a", Suspend(pending -> "b"), "c") streams a<!>bc, its resolved render is a<!>b<!>c *)
+Lemma in_order_concat_refuted :
+  exists v init ev,
+    somes (run_free (poll_fuel v) false v init ev) <> fst (resolved v FirstChild).
+Proof.
+  exists witness_view, [], [EPoll; EComplete 1%N; EPoll]. vm_compute. discriminate.
+Qed.
+
+Example known_class_witness : known_class false [] witness_view = true.
+Proof. reflexivity. Qed.
+
+(** hypotheses of [in_order_concat_free] are satisfiable by a view with pending async parts *)
+Example in_order_concat_nonvacuous :
+  let v := VElem 0%N (VTuple [VText [97%N]; VSuspend 1%N (VElem 1%N (VText [98%N]));
+                              VSuspend 2%N (VTuple [VElem 2%N (VText [99%N]);
+                                                    VSuspend 3%N (VElem 3%N (VText [100%N]))])]) in
+  known_class false [] v = false /\ futures_of v = [1%N; 2%N; 3%N].
+Proof. split; reflexivity. Qed.
